@@ -735,11 +735,19 @@ impl World {
                 let recreated: Vec<u64> = if !accepted {
                     vec![]
                 } else {
+                    // entering a joint configuration keeps the Progress of every previous voter (it stays in
+                    // the outgoing half); otherwise remove + add builds a new one
+                    let joint = cc.enter_joint().is_some();
+                    let old_voters: Vec<u64> = self.nodes[ni]
+                        .rn
+                        .as_ref()
+                        .map_or(vec![], |rn| rn.raft.prs().conf().to_conf_state().voters.to_vec());
                     let ch = cc.get_changes();
                     let mut v = vec![];
                     for (k, c) in ch.iter().enumerate() {
                         if c.get_change_type() == ConfChangeType::RemoveNode
                             && ch[k + 1..].iter().any(|d| d.node_id == c.node_id && d.get_change_type() != ConfChangeType::RemoveNode)
+                            && !(joint && old_voters.contains(&c.node_id))
                         {
                             v.push(c.node_id);
                         }
